@@ -85,8 +85,17 @@ def check(run, prog):
 
     def call(fi, z, *args):
         ev = ck.evaluator()
-        return ck.attempt("R0", fi.where, fi.qualname, "method evaluates on a symbolic signal",
-                          lambda: ev.call(fi, list(args), {}, self_val=z), allowed_guards=[], ev=ev)
+        out = ck.attempt("R0", fi.where, fi.qualname, "method evaluates on a symbolic signal",
+                         lambda: ev.call(fi, list(args), {}, self_val=z), allowed_guards=[], ev=ev)
+        d = out.attrs.get("_data") if isinstance(out, ObjV) else None
+        if isinstance(d, StackV) and fi is not f_int and fi is not f_get:
+            nd = len(d.shape) if d.shape is not None else None
+            ax = d.axis % nd if nd and -nd <= d.axis < nd else d.axis
+            if ax != 2 or not all(isinstance(x, Num) for x in d.items):
+                ck.same("R1", fi.where, fi.qualname, "the components are taken from and stacked along the polarisation axis (axis 2), whatever trailing dimensions follow",
+                        False, found=f"stacked along axis {ax} of {nd} dimensions", nontrivial=True)
+                return None
+        return out
 
     variants = [("numpy", ()), ("dask", (sp.Integer(4),))] if run.tier == "quick" else \
         [("numpy", ()), ("dask", ()), ("numpy", (sp.Integer(3),)), ("dask", (sp.Symbol("K", integer=True, positive=True),))]
